@@ -305,7 +305,10 @@ struct W { src: Src, dat: Dat, index: u64, d: usize, mem: u64, steps: u64 }
 #[derive(Clone)]
 struct AuxD { md: Option<Vec<(u64, Vec<u8>)>>, native: Option<Vec<u8>>, plutus: Option<Vec<usize>>, alonzo: bool }
 #[derive(Clone)]
-enum Op { Sub(u64, u64, Vec<W>), Extra(usize), Calc(Cm), SetHash(Vec<u8>), RmHash, SetAux(AuxD), RmAux, SetMd(Vec<(u64, Vec<u8>)>), AddMd(u64, Vec<u8>) }
+enum Wire { S(Vec<(u64, Vec<u8>)>), M(Vec<(u64, Vec<u8>)>, Vec<u8>), A(Option<Vec<(u64, Vec<u8>)>>, Option<Vec<u8>>, [Option<Vec<Vec<u8>>>; 3]) }
+#[derive(Clone)]
+enum Op { Sub(u64, u64, Vec<W>), Extra(usize), Calc(Cm), SetHash(Vec<u8>), RmHash, SetAux(AuxD), RmAux, SetMd(Vec<(u64, Vec<u8>)>), AddMd(u64, Vec<u8>),
+          AddJson(u64, u64, String, Vec<u8>), SetAuxW(Wire) }
 
 fn md_to_string(md: &[(u64, Vec<u8>)]) -> String {
     let mut s = format!("{}", md.len());
@@ -335,6 +338,34 @@ fn op_to_string(o: &Op) -> String {
         Op::RmAux => "rmaux".to_string(),
         Op::SetMd(m) => format!("setmd {}", md_to_string(m)),
         Op::AddMd(l, b) => format!("addmd {} {}", l, hex_or_dash(b)),
+        Op::AddJson(l, sc, j, b) => format!("addjson {} {} {} {}", l, sc, hex_or_dash(j.as_bytes()), hex_or_dash(b)),
+        Op::SetAuxW(w) => {
+            let ol = |o: &Option<Vec<Vec<u8>>>| match o { None => "~".to_string(), Some(v) => { let mut s = format!("{}", v.len()); for b in v { s += &format!(" {}", hex_or_dash(b)); } s } };
+            match w {
+                Wire::S(md) => format!("setauxw s {}", md_to_string(md)),
+                Wire::M(md, ns) => format!("setauxw m {} {}", md_to_string(md), hex_or_dash(ns)),
+                Wire::A(md, ns, v) => format!("setauxw a {} {} {} {} {}",
+                    match md { None => "~".to_string(), Some(m) => md_to_string(m) },
+                    match ns { None => "~".to_string(), Some(b) => hex_or_dash(b) }, ol(&v[0]), ol(&v[1]), ol(&v[2])),
+            }
+        }
+    }
+}
+/// The bytes of a wire form (definite lengths, keys in ascending order).
+fn enc_md(md: &[(u64, Vec<u8>)]) -> Vec<u8> { let mut b = cbor_head(5, md.len() as u64); for (l, v) in md { b.extend(cbor_head(0, *l)); b.extend(v); } b }
+fn enc_arr(v: &[Vec<u8>]) -> Vec<u8> { let mut b = cbor_head(4, v.len() as u64); for x in v { b.extend(cbor_head(2, x.len() as u64)); b.extend(x); } b }
+fn enc_wire(w: &Wire) -> Vec<u8> {
+    match w {
+        Wire::S(md) => enc_md(md),
+        Wire::M(md, ns) => { let mut b = vec![0x82]; b.extend(enc_md(md)); b.extend(ns); b }
+        Wire::A(md, ns, v) => {
+            let n = md.is_some() as u64 + ns.is_some() as u64 + v.iter().filter(|x| x.is_some()).count() as u64;
+            let mut b = vec![0xd9, 0x01, 0x03]; b.extend(cbor_head(5, n));
+            if let Some(m) = md { b.push(0); b.extend(enc_md(m)); }
+            if let Some(x) = ns { b.push(1); b.extend(x); }
+            for (i, o) in v.iter().enumerate() { if let Some(l) = o { b.push(2 + i as u8); b.extend(enc_arr(l)); } }
+            b
+        }
     }
 }
 fn parse_md(p: &mut P) -> Vec<(u64, Vec<u8>)> { let k = p.count(); (0..k).map(|_| (p.num(), unhex_or_dash(p.next()))).collect() }
@@ -364,6 +395,20 @@ fn parse_ops(p: &mut P) -> Vec<Op> {
         "rmaux" => Op::RmAux,
         "setmd" => Op::SetMd(parse_md(p)),
         "addmd" => Op::AddMd(p.num(), unhex_or_dash(p.next())),
+        "addjson" => { let l = p.num(); let sc = p.num(); let j = String::from_utf8(unhex_or_dash(p.next())).unwrap(); Op::AddJson(l, sc, j, unhex_or_dash(p.next())) }
+        "setauxw" => {
+            fn optl(p: &mut P) -> Option<Vec<Vec<u8>>> { let s = p.next(); if s == "~" { None } else { let k: usize = s.parse().unwrap(); Some((0..k).map(|_| unhex_or_dash(p.next())).collect()) } }
+            match p.next() {
+                "s" => Op::SetAuxW(Wire::S(parse_md(p))),
+                "m" => { let md = parse_md(p); Op::SetAuxW(Wire::M(md, unhex_or_dash(p.next()))) }
+                _ => {
+                    let md = if p.t[p.i] == "~" { p.next(); None } else { Some(parse_md(p)) };
+                    let ns = { let s = p.next(); if s == "~" { None } else { Some(unhex_or_dash(s)) } };
+                    let v1 = optl(p); let v2 = optl(p); let v3 = optl(p);
+                    Op::SetAuxW(Wire::A(md, ns, [v1, v2, v3]))
+                }
+            }
+        }
         x => panic!("unknown op {}", x),
     }).collect()
 }
@@ -585,6 +630,23 @@ fn run_builder(t: &[String]) -> String {
             }
             Op::RmAux => tb.remove_auxiliary_data(),
             Op::SetMd(md) => match mk_metadata(md) { Ok(g) => tb.set_metadata(&g), Err(e) => return format!("stale-case:{}", e.replace(' ', "_")) },
+            Op::AddJson(l, sc, j, b) => {
+                let schema = match sc { 0 => MetadataJsonSchema::NoConversions, 1 => MetadataJsonSchema::BasicConversions, _ => MetadataJsonSchema::DetailedSchema };
+                match encode_json_str_to_metadatum(j.clone(), schema) {
+                    Ok(m) => if &m.to_bytes() != b { return "stale-case:json_converts_to_other_bytes".to_string(); },
+                    Err(_) => return "stale-case:json_does_not_convert".to_string(),
+                }
+                if *sc == 0 && b.len() % 2 == 0 { if tb.add_json_metadatum(&bn(*l), j.clone()).is_err() { return "harness-error:add_json_metadatum".to_string(); } }
+                else if tb.add_json_metadatum_with_schema(&bn(*l), j.clone(), schema).is_err() { return "harness-error:add_json_metadatum".to_string(); }
+            }
+            Op::SetAuxW(w) => {
+                // components must survive the library's own round trip for the wire description to be what the decoder sees
+                let mds: Vec<&Vec<(u64, Vec<u8>)>> = match w { Wire::S(m) | Wire::M(m, _) => vec![m], Wire::A(m, _, _) => m.iter().collect() };
+                for md in mds { for (_, b) in md { match TransactionMetadatum::from_bytes(b.clone()) { Ok(m) => if &m.to_bytes() != b { return "stale-case:metadatum_bytes_differ".to_string(); }, Err(_) => return "stale-case:metadatum_does_not_decode".to_string() } } }
+                let nss: Option<&Vec<u8>> = match w { Wire::M(_, n) => Some(n), Wire::A(_, n, _) => n.as_ref(), _ => None };
+                if let Some(nb) = nss { match NativeScripts::from_bytes(nb.clone()) { Ok(ns) => if &ns.to_bytes() != nb { return "stale-case:native_scripts_bytes_differ".to_string(); }, Err(_) => return "stale-case:native_scripts_do_not_decode".to_string() } }
+                if let Ok(aux) = AuxiliaryData::from_bytes(enc_wire(w)) { tb.set_auxiliary_data(&aux); }
+            }
             Op::AddMd(l, b) => {
                 let m = match TransactionMetadatum::from_bytes(b.clone()) { Ok(m) => m, Err(_) => return "stale-case:metadatum_does_not_decode".to_string() };
                 if &m.to_bytes() != b { return "stale-case:metadatum_bytes_differ".to_string(); }
@@ -652,7 +714,7 @@ fn gen_helper(r: &mut Rng, stream: &str) -> String {
         "emptysome" => { list = Some((*r.pick(&['n', 't', 'f']), vec![])); }
         "noreddatums" => { k = 0; fmt = *r.pick(&["n", "m"]); cm = Cm(vec![]); list = Some(('n', (0..r.range(1, 4)).map(|_| all(r)).collect())); }
         "nored" => { k = 0; fmt = *r.pick(&["n", "m"]); list = None; }
-        "outscope" => { k = 0; if r.chance(1, 2) { fmt = "a"; } else { let l0 = r.below(3); cm = gen_cm(r, &[l0]); list = Some(('n', vec![all(r)])); } }
+        "noredquirk" => { k = 0; if r.chance(1, 2) { fmt = "a"; } else { let l0 = r.below(3); cm = gen_cm(r, &[l0]); list = Some(('n', vec![all(r)])); } }
         "langs" => { let pick = r.below(8); cm = gen_cm(r, &match pick { 0 => vec![], 1 => vec![0], 2 => vec![1], 3 => vec![2], 4 => vec![0, 1], 5 => vec![0, 2], 6 => vec![1, 2], _ => vec![0, 1, 2] }); }
         _ => {}
     }
@@ -691,6 +753,27 @@ fn gen_aux(r: &mut Rng, nscripts: usize) -> AuxD {
     AuxD { md, native, plutus, alonzo: r.chance(1, 3) }
 }
 
+fn gen_json(r: &mut Rng) -> (u64, String) {
+    match r.below(6) {
+        0 => (0, format!("{{\"k{}\":{},\"t\":\"v{}\"}}", r.below(9), r.below(1000), r.below(9))),
+        1 => (0, format!("[{},\"x\",{}]", r.below(100), r.below(100))),
+        2 => (1, format!("\"0x{}\"", hex::encode(r.bytes(4)))),
+        3 => (1, format!("{{\"{}\":\"0x{}\"}}", r.below(50), hex::encode(r.bytes(3)))),
+        4 => (2, format!("{{\"int\":{}}}", r.below(100000))),
+        _ => (2, format!("{{\"list\":[{{\"int\":{}}},{{\"string\":\"s\"}}]}}", r.below(10))),
+    }
+}
+fn gen_wire(r: &mut Rng, scripts: &[(u64, Vec<u8>)]) -> Wire {
+    let k = r.below(4) as usize;
+    let mut md = gen_md(r, k);
+    if k > 1 && r.chance(1, 10) { md[1].0 = md[0].0; }                 // a repeated label: decoding fails, nothing is set
+    let bytes_of = |r: &mut Rng| -> Option<Vec<Vec<u8>>> { match r.below(4) { 0 => None, 1 => Some(vec![]), _ => Some((0..r.range(1, 2)).map(|_| scripts[r.below(scripts.len() as u64) as usize].1.clone()).collect()) } };
+    match r.below(5) {
+        0 => Wire::S(md),
+        1 => Wire::M(md, gen_native(r)),
+        _ => Wire::A(if r.chance(3, 4) { Some(md) } else { None }, if r.chance(1, 2) { Some(gen_native(r)) } else { None }, [bytes_of(r), bytes_of(r), bytes_of(r)]),
+    }
+}
 /// One candidate witness list for sub-builder k (before normalisation through the real sub-builder).
 fn gen_sub(r: &mut Rng, k: u64, n: usize, npool: usize, scripts: &[(u64, Vec<u8>)], steps0: &mut u64) -> Vec<W> {
     let mut ws: Vec<W> = Vec::new();
@@ -739,7 +822,7 @@ fn gen_builder(r: &mut Rng, stream: &str) -> Option<String> {
     let mut subs: Vec<Op> = Vec::new();
     let which: Vec<u64> = match stream {
         "spend" => vec![0],
-        "extra" | "aux" => vec![],
+        "extra" | "aux" | "auxflip" | "auxwire" => vec![],
         "refonly" => vec![0, 2],
         _ => (0..7u64).filter(|k| *k == 0 || *k == 1 || r.chance(1, 2)).collect(),
     };
@@ -799,18 +882,36 @@ fn gen_builder(r: &mut Rng, stream: &str) -> Option<String> {
         }
         _ => { ops.extend(subs); ops.push(Op::Calc(cm.clone())); }
     }
-    // auxiliary data operations anywhere
-    let naux = if stream == "aux" { r.range(1, 5) } else if r.chance(1, 2) { r.range(1, 2) } else { 0 };
-    for _ in 0..naux {
-        let o = match r.below(6) {
-            0 | 1 => Op::SetAux(gen_aux(r, scripts.len())),
+    // auxiliary data operations, in sequence, anywhere between the other operations
+    let naux = if stream == "aux" { r.range(1, 5) } else if stream == "auxflip" || stream == "auxwire" { r.range(2, 4) } else if r.chance(1, 2) { r.range(1, 2) } else { 0 };
+    let mut auxops: Vec<Op> = Vec::new();
+    let mut last_set: Option<AuxD> = None;
+    for i in 0..naux {
+        let choice = if stream == "auxflip" { if i == 0 { 0 } else { *r.pick(&[6u64, 6, 6, 3, 7]) } }
+                     else if stream == "auxwire" { *r.pick(&[8u64, 8, 8, 3, 6, 4]) }
+                     else { r.below(10) };
+        let o = match choice {
+            0 | 1 => { let a = gen_aux(r, scripts.len()); last_set = Some(a.clone()); Op::SetAux(a) }
             2 => { let k = r.below(4) as usize; Op::SetMd(gen_md(r, k)) }
             3 | 4 => Op::AddMd(if r.chance(1, 2) { r.below(8) } else { r.u64_edge() }, gen_metadatum(r)),
-            _ => Op::RmAux,
+            5 => Op::RmAux,
+            6 => { // the same content with the other format preference (the emitted wire form changes, the content does not)
+                let mut a = match &last_set { Some(a) => a.clone(), None => gen_aux(r, scripts.len()) };
+                a.alonzo = !a.alonzo; last_set = Some(a.clone()); Op::SetAux(a) }
+            7 => { let (sc, j) = gen_json(r); let b = encode_json_str_to_metadatum(j.clone(), match sc { 0 => MetadataJsonSchema::NoConversions, 1 => MetadataJsonSchema::BasicConversions, _ => MetadataJsonSchema::DetailedSchema }).unwrap().to_bytes();
+                   Op::AddJson(r.below(8), sc, j, b) }
+            _ => Op::SetAuxW(gen_wire(r, &scripts)),
         };
-        let at = r.below(ops.len() as u64 + 1) as usize;
-        ops.insert(at, o);
+        auxops.push(o);
     }
+    // merge, keeping the order of both lists
+    let mut merged: Vec<Op> = Vec::new();
+    let (mut i, mut j) = (0usize, 0usize);
+    while i < ops.len() || j < auxops.len() {
+        let take_aux = j < auxops.len() && (i >= ops.len() || r.chance(1, 2));
+        if take_aux { merged.push(auxops[j].clone()); j += 1; } else { merged.push(ops[i].clone()); i += 1; }
+    }
+    let ops = merged;
     let mut s = format!("b:{} {} S {}", stream, pool_to_string(&pool), scripts.len());
     for (l, b) in &scripts { s += &format!(" {} {}", l, hex_or_dash(b)); }
     s += &format!(" OPS {}", ops.len());
@@ -831,13 +932,13 @@ fn main() {
         let mut r = Rng::new(seed_from_env() ^ 0xC09C09);
         let mut out = Out::new(&args[2]);
         let scale = if is_thorough() { 10 } else { 1 };
-        let hstreams = ["basic", "basic", "dupdef", "dupindef", "dupindefdec", "emptysome", "noreddatums", "nored", "outscope", "langs", "langs"];
+        let hstreams = ["basic", "basic", "dupdef", "dupindef", "dupindefdec", "emptysome", "noreddatums", "nored", "noredquirk", "langs", "langs"];
         for _ in 0..(40 * scale) { for s in hstreams.iter() {
             let line = gen_helper(&mut r, s);
             let toks: Vec<String> = line.split_whitespace().map(|x| x.to_string()).collect();
             out.emit(&line, &run_case(&toks));
         } }
-        let bstreams = ["spend", "mix", "mix", "mix", "refonly", "extra", "dupdatum", "dupred", "colplutus", "stale", "nohash", "nocollateral", "missingcm", "aux", "sethash", "recalc", "noopcalc"];
+        let bstreams = ["spend", "mix", "mix", "mix", "refonly", "extra", "dupdatum", "dupred", "colplutus", "stale", "nohash", "nocollateral", "missingcm", "aux", "aux", "auxflip", "auxflip", "auxwire", "sethash", "recalc", "noopcalc"];
         for _ in 0..(30 * scale) { for s in bstreams.iter() {
             if let Some(line) = gen_builder(&mut r, s) {
                 let toks: Vec<String> = line.split_whitespace().map(|x| x.to_string()).collect();
